@@ -43,7 +43,7 @@ func LevelsKeepOrder(p *load.Program, run *report.Run) {
 		return
 	}
 	type gate struct {
-		op           string
+		op            string
 		in0, in1, out int64
 	}
 	// wires 0 and 1 are the inputs
